@@ -96,7 +96,8 @@ def run(repo: Repo, rep: Report, tier: str) -> None:
     alts = clw.alts(en_arg)
     q = repr(enable_sig)
     def alt_ok(a: str) -> bool:
-        return a == "self.parent.expr_lowerer.lower_expr(expr.when)" or (a.startswith("self.ir_builder.arithmetic('+', ") and a.endswith(f", 0, {q}, expr)")) or a == f"self.ir_builder.const({q}, 1, expr)"
+        return a == "self.parent.expr_lowerer.lower_expr(expr.when)" or (a.startswith("self.ir_builder.arithmetic('+', ") and a.endswith(f", 0, {q}, expr)")) or a == f"self.ir_builder.const({q}, 1, expr)" \
+            or a == f"self.ir_builder.const({q}, self.parent.expr_lowerer.lower_expr(expr.when), expr)"
     rep.check(all(alt_ok(a) for a in alts) and len(alts) >= 3, "C03-R2", "the enable handed to memory_write is the lowered condition, its projection onto the enable signal, or the constant 1 on it",
               "; ".join(a[:70] for a in alts), lsw.loc(mwc[0]))
     inplace = [n for n in walk_local(lsw.node) if isinstance(n, ast.Assign) and isinstance(n.targets[0], ast.Attribute) and n.targets[0].attr in ("signal_type", "output_type") and norm(n.value) == q]
@@ -122,9 +123,12 @@ def run(repo: Repo, rep: Report, tier: str) -> None:
     # constant-one enable that is not folded into arithmetic feedback must still open the write gate
     hw = repo.func("MemoryBuilder.handle_write")
     guarded = [n for n in walk_local(ssw.node) if isinstance(n, ast.If) and norm(n.test) == "isinstance(op.write_enable, SignalRef)"]
-    handles_const = bool(guarded) and bool(guarded[0].orelse)
+    # ... either the builder handles an int enable itself, or the lowerer never hands one over (a literal enable becomes a constant on the enable signal)
+    converts = any(isinstance(n, ast.If) and clw.text(n.test) == "isinstance(self.parent.expr_lowerer.lower_expr(expr.when), int)"
+                   and any(isinstance(x, ast.Call) and call_name(x) == "const" and x.args and norm(x.args[0]) == q for b_ in n.body for x in ast.walk(b_)) for n in walk_local(lsw.node))
+    handles_const = (bool(guarded) and bool(guarded[0].orelse)) or converts
     rep.check(handles_const, "C03-R2", "a constant enable (when=1) that is not turned into arithmetic feedback still reaches the gates",
-              "else-branch handles the constant" if handles_const else
+              ("the lowerer turns a literal enable into a constant on the enable signal" if converts else "else-branch handles the constant") if handles_const else
               "_setup_standard_write wires the enable only `if isinstance(op.write_enable, SignalRef)`; for the int 1 nothing carries signal-W to the gates, so `W > 0` is never true and the cell is never written", ssw.loc(guarded[0]) if guarded else ssw.loc())
 
     # ---------------- R3 ---------------------------------------------------------------
